@@ -335,7 +335,7 @@ func checkRangesMergedFn(p *core.Prog, r *core.Report, name string) {
 		adjs = append(adjs, a)
 	})
 	if len(adjs) == 0 {
-		core.Undecide("Ranges."+name+": no adjacency comparison (end of one range vs start of the next)")
+		core.Undecide("Ranges." + name + ": no adjacency comparison (end of one range vs start of the next)")
 	}
 	news := core.FindInstrs(fn, core.IsCallTo(p.FuncObj(pkgBlock, "NewRange")))
 	r.Check(len(news) > 0, "C13.R6", name+"/builds", "merged ranges are built with NewRange", "no NewRange call", p.Pos(fn.Pos()))
